@@ -17,6 +17,12 @@ Exploration, impl-level oracle in harness/h08 (decides the property on the code)
        or specialised, correct / missing / wrong bounds, wrappers of T, tuples, Array, Box, Span,
        snapshots, Nullable, nested generics, at capable and incapable arguments): a use that needs a
        capability the instantiated type truly lacks must be diagnosed, at the impl or at the use;
+       every violation shape is also placed in every kind of function body the compiler lowers
+       (place.rs: free / impl / trait-default fns called, never called or without impl, generic fns
+       and generic impl / trait-default fns, nested inline modules, closure, loop / while / for bodies,
+       inline attributes, #[generate_trait] impls, traits with associated items), each container with
+       a benign control that must be accepted and compile; and every function-level borrow-check
+       error (functions enumerated by the translator) must reach the crate's diagnostics;
  (iii) path oracle (spec.rs): no function of a crate without error diagnostics has a path with a
        double move or an undroppable unused value (forward value semantics, from the property text)."""
 import json
